@@ -281,6 +281,10 @@ def evaluate_payload_template(input, context, template):
         https://states-language.net/#appendix-b
         """
 
+        def is_integer(value):
+            # bool is a subclass of int in Python but true/false are not numbers
+            return isinstance(value, int) and not isinstance(value, bool)
+
         def asl_intrinsic_Format(args):
             if len(args) < 1:
                 raise IntrinsicFailure(
@@ -335,7 +339,7 @@ def evaluate_payload_template(input, context, template):
                 )
 
             n = args[1]
-            if not isinstance(n, int) or n <= 0:
+            if not is_integer(n) or n <= 0:
                 raise IntrinsicFailure(
                     "States.ArrayPartition failed, arg[1] is not a non-zero, positive integer."
                 )
@@ -371,9 +375,9 @@ def evaluate_payload_template(input, context, template):
             start     = args[0]
             end       = args[1]
             increment = args[2]
-            if not (isinstance(start, int) and
-                    isinstance(end, int) and
-                    isinstance(increment, int)):
+            if not (is_integer(start) and
+                    is_integer(end) and
+                    is_integer(increment)):
                 raise IntrinsicFailure(
                     "States.ArrayRange failed, all arguments must be integers."
                 )
@@ -405,7 +409,7 @@ def evaluate_payload_template(input, context, template):
                 )
 
             index = args[1]
-            if not isinstance(index, int) or index < 0:
+            if not is_integer(index) or index < 0:
                 raise IntrinsicFailure(
                     "States.ArrayGetItem failed, arg[1] is not a positive integer."
                 )
@@ -543,7 +547,7 @@ def evaluate_payload_template(input, context, template):
             if len(args) == 3:
                 # https://docs.python.org/3/library/random.html#random.seed
                 random.seed(args[2])
-            if not isinstance(args[0], int) or not isinstance(args[1], int):
+            if not is_integer(args[0]) or not is_integer(args[1]):
                 raise IntrinsicFailure(
                     "States.MathRandom failed, args[0] and args[1] must be integers."
                 )
@@ -557,7 +561,7 @@ def evaluate_payload_template(input, context, template):
                 raise IntrinsicFailure(
                     "States.MathAdd failed, requires two arguments."
                 )
-            if not isinstance(args[0], int) or not isinstance(args[1], int):
+            if not is_integer(args[0]) or not is_integer(args[1]):
                 raise IntrinsicFailure(
                     "States.MathAdd failed, both arguments must be integers."
                 )
